@@ -821,7 +821,7 @@ func (ex *Exec) callBuiltin(fr *frame, pos token.Pos, fn *ssa.Builtin, args []va
 			r := dst[:len(dst)+len(src)]
 			for i, v := range src {
 				cell := &r[len(dst)+i]
-				ex.checkWrite(fr, pos, cell)
+				ex.checkWriteVal(fr, pos, cell, v)
 				*cell = copyVal(v)
 			}
 			return r
